@@ -32,6 +32,17 @@ def run(ctx):
     texts = [t for t in gen.mutated_corpus(rng, ctx.n(1500, 15000)) if '---' in t or rng.random() < 0.3]
     corr.direct(ctx, 'c12n', [[t, rng.choice(['py', 'c'])] for t in texts], describe=lambda c: dict(text=c[0], dumper=c[1], backend=c[1]), label='serialize_all')
     evc = [[events.enc_case(events.stream(rng, wf=True, ndocs=rng.choice([0, 2, 3, 4])), events.options(rng)), rng.choice(['py', 'c']), True] for _ in range(ctx.n(2000, 20000))]
+    # documents whose root writes nothing at all (an empty plain scalar) or almost nothing, in FIRST position and later: the marker of the document is all
+    # there is to see of it, and whether it is written is decided by the emitter's look-ahead
+    for first in ([('SC', None, None, True, False, '', None)], [('SC', None, None, True, True, '', None)], [('SC', 'a', None, True, False, '', None)], [('SC', None, '!', False, True, '', None)],
+                  [('QS', None, None, True, True), ('QE',)], [('SC', None, None, True, False, '~', None)]):
+        for ex_start in (False, True):
+            for ex_end in (False, True):
+                for rest in ([], [[('SC', None, None, True, False, 'b', None)]], [[('SC', None, None, True, False, '', None)], [('MS', None, None, True, False), ('ME',)]]):
+                    evs = [('SS',), ('DS', ex_start, None, [])] + first + [('DE', ex_end)]
+                    for r in rest: evs += [('DS', rng.choice([True, False]), None, [])] + r + [('DE', ex_end)]
+                    evs.append(('SE',))
+                    for be in ('py', 'c'): evc.append([events.enc_case(evs, events.options(rng)), be, True])
     corr.direct(ctx, 'c05', evc, describe=lambda c: dict(events=c[0], backend=c[1], wellformed=c[2]), label='emit')
     ctx.partial = [dict(theorem='doc_markers / no_marker_inside / doc_text_prefix_stable / parser_doc_count', missing='column-0 recognition and per-document reset proved; the rest decided by correspondence and the direct run')]
     return ctx.finish(assumptions=['LibYAML is observed, not modelled'])
